@@ -1,4 +1,4 @@
-import Cfdm.Lemmas.CodecEquiv
+import Cfdm.Lemmas.CodecB3
 /-
 C01: of all the variables of the written file only the data variable becomes a field.
 -/
@@ -23,33 +23,37 @@ theorem reinstate_none (referencers : String → List String) (cur : List String
     exact ih out (fun m hm => h m (List.mem_cons_of_mem _ hm))
 
 section
-variable {o : Opts} {f : MField} {names : List (Slot × String)} (hwf : WFField f) (hg : GoodNames f (wfAx f) names)
+variable {o : Opts} {f : MField} {names : List (Slot × String)} (hwf : WFFieldB f) (hg : GoodNames f (wfAx f) names)
 include hwf hg
 
-/-- Names of the variables of metadata constructs and of their bounds. -/
+/-- Names of the variables of metadata constructs, of their bounds, and of the grid mappings. -/
 def IsMetaName (f : MField) (names : List (Slot × String)) (r : String) : Prop :=
   (∃ e ∈ f.cons, r = nameOf names (.con e.key)) ∨
-  (∃ e ∈ f.cons, ∃ b, isCoord e = true ∧ e.con.bounds = some b ∧ r = nameOf names (.bvar e.key))
+  (∃ e ∈ f.cons, ∃ b, isBounded e = true ∧ e.con.bounds = some b ∧ r = nameOf names (.bvar e.key)) ∨
+  (∃ g ∈ gmRefs f, r = nameOf names (.gm g.1))
 
 theorem meta_ne_field {r : String} (h : IsMetaName f names r) : r ≠ nameOf names .field := by
   intro heq
-  rcases h with ⟨e, he, rfl⟩ | ⟨e, he, b, hc, hb, rfl⟩
+  rcases h with ⟨e, he, rfl⟩ | ⟨e, he, b, hc, hb, rfl⟩ | ⟨g, hgm, rfl⟩
   · have : Slot.con e.key = Slot.field := hg.nameOf_inj (slot_con hwf hg he) hg.field heq (Or.inl rfl)
     cases this
   · have : Slot.bvar e.key = Slot.field := hg.nameOf_inj (slot_bounds hwf hg he hc hb).1 hg.field heq (Or.inl rfl)
     cases this
+  · have : Slot.gm g.1 = Slot.field := hg.nameOf_inj (hg.gm g hgm) hg.field heq (Or.inl rfl)
+    cases this
 
 theorem var_meta {w : NcVar} (hw : w ∈ (wfFile o f names).vars) :
     w = dataVar o f (wfAx f) names ∨ IsMetaName f names w.name := by
-  rcases mem_vars hwf hg hw with h | ⟨e, he, h | ⟨hc, b, hb, h⟩⟩
+  rcases mem_vars hwf hg hw with h | ⟨e, he, h | ⟨hc, b, hb, h⟩⟩ | ⟨g, hgm, h⟩
   · exact Or.inl h
   · right; left; exact ⟨e, he, by rw [h, mainVar_name]⟩
-  · right; right; exact ⟨e, he, b, hc, hb, by rw [h]; rfl⟩
+  · right; right; left; exact ⟨e, he, b, hc, hb, by rw [h]; rfl⟩
+  · right; right; right; exact ⟨g, hgm, by rw [h]; rfl⟩
 
 /-- The bounds attribute of any variable of the file names a bounds variable. -/
 theorem boundsAttr_meta {w : NcVar} (hw : w ∈ (wfFile o f names).vars) {bn : String} (h : boundsAttr w = some bn) :
     IsMetaName f names bn := by
-  rcases mem_vars hwf hg hw with hd | ⟨e, he, hm | ⟨hc, b, hb, hm⟩⟩
+  rcases mem_vars hwf hg hw with hd | ⟨e, he, hm | ⟨hc, b, hb, hm⟩⟩ | ⟨g, hgm, hm⟩
   · subst hd; cases h
   · subst hm
     unfold mainVar at h
@@ -64,7 +68,7 @@ theorem boundsAttr_meta {w : NcVar} (hw : w ∈ (wfFile o f names).vars) {bn : S
       | some b =>
         rw [hb] at h
         have : bn = nameOf names (.bvar e.key) := by by_cases hcl : isClim f e = true <;> simp [hcl] at h <;> exact h.symm
-        right; exact ⟨e, he, b, by simp [isCoord, ht], hb, this⟩
+        right; left; exact ⟨e, he, b, by simp [isBounded, ht], hb, this⟩
     | aux =>
       rw [ht] at h
       simp only at h
@@ -75,9 +79,11 @@ theorem boundsAttr_meta {w : NcVar} (hw : w ∈ (wfFile o f names).vars) {bn : S
       | some b =>
         rw [hb] at h
         have : bn = nameOf names (.bvar e.key) := by by_cases hcl : isClim f e = true <;> simp [hcl] at h <;> exact h.symm
-        right; exact ⟨e, he, b, by simp [isCoord, ht], hb, this⟩
+        right; left; exact ⟨e, he, b, by simp [isBounded, ht], hb, this⟩
     | msr => rw [ht] at h; cases h
     | fan => rw [ht] at h; cases h
+    | dan => rw [ht] at h; cases h
+  · subst hm; cases h
   · subst hm; cases h
 
 omit hwf hg in
@@ -143,13 +149,12 @@ theorem data_not_coordvar : (dataVar o f (wfAx f) names).dims ≠ [(dataVar o f 
   unfold dimSlot at hs
   cases hr : wfRole f a <;> rw [hr] at hs <;> cases hs
 
-/-- Nothing references the data variable. -/
-theorem field_unreferenced {w : NcVar} (hw : w ∈ (wfFile o f names).vars) :
-    nameOf names .field ∉ varRefs (wfFile o f names) w := by
-  intro hmem
-  have hmeta : ∀ r ∈ varRefs (wfFile o f names) w, IsMetaName f names r := by
+/-- What a variable of the file, taken as a data variable, references through its dimensions and its
+`coordinates`, `cell_measures` and `ancillary_variables` attributes are metadata variables. -/
+theorem refsA_meta {w : NcVar} (hw : w ∈ (wfFile o f names).vars) :
+    ∀ r ∈ varRefsA (wfFile o f names) w, IsMetaName f names r := by
     intro r hr
-    unfold varRefs at hr
+    unfold varRefsA at hr
     simp only [List.mem_append, List.mem_flatMap] at hr
     rcases hr with ((⟨d, _, hr⟩ | ⟨t, ht, hr⟩) | ⟨m, hm, hr⟩) | ⟨t, ht, hr⟩
     · unfold dimRefs at hr
@@ -194,7 +199,7 @@ theorem field_unreferenced {w : NcVar} (hw : w ∈ (wfFile o f names).vars) :
               obtain ⟨hv1, hv2⟩ := var?_some hvar
               -- the token is the name of a metadata variable
               have htm : IsMetaName f names t := by
-                rcases mem_vars hwf hg hw with hd | ⟨e, he, hm | ⟨hc, b, hb, hm⟩⟩
+                rcases mem_vars hwf hg hw with hd | ⟨e, he, hm | ⟨hc, b, hb, hm⟩⟩ | ⟨g, hgm, hm⟩
                 · subst hd
                   have : t ∈ coordTokens o f (wfAx f) names := ht
                   rw [coordTokens_eq, List.mem_append] at this
@@ -224,6 +229,7 @@ theorem field_unreferenced {w : NcVar} (hw : w ∈ (wfFile o f names).vars) :
                     unfold mainVar; cases e.con.ctype <;> rfl
                   rw [this] at ht; cases ht
                 · subst hm; cases ht
+                · subst hm; cases ht
               have hne : v' ≠ dataVar o f (wfAx f) names := by
                 intro heq
                 subst heq
@@ -235,7 +241,7 @@ theorem field_unreferenced {w : NcVar} (hw : w ∈ (wfFile o f names).vars) :
     · -- measures: only the data variable has any
       unfold usedMeasures at hm
       split at hm
-      · rcases mem_vars hwf hg hw with hd | ⟨e, he, hm' | ⟨hc, b, hb, hm'⟩⟩
+      · rcases mem_vars hwf hg hw with hd | ⟨e, he, hm' | ⟨hc, b, hb, hm'⟩⟩ | ⟨g, hgm, hm'⟩
         · subst hd
           have : m ∈ (sortEntries (f.ofType .msr)).map (fun e => (e.con.measure.getD "", nameOf names (.con e.key))) := hm
           obtain ⟨e, he, rfl⟩ := List.mem_map.mp this
@@ -251,10 +257,11 @@ theorem field_unreferenced {w : NcVar} (hw : w ∈ (wfFile o f names).vars) :
             unfold mainVar; cases e.con.ctype <;> rfl
           rw [this] at hm; cases hm
         · subst hm'; cases hm
+        · subst hm'; cases hm
       · cases hm
     · unfold usedAncillary at ht
       split at ht
-      · rcases mem_vars hwf hg hw with hd | ⟨e, he, hm' | ⟨hc, b, hb, hm'⟩⟩
+      · rcases mem_vars hwf hg hw with hd | ⟨e, he, hm' | ⟨hc, b, hb, hm'⟩⟩ | ⟨g, hgm, hm'⟩
         · subst hd
           have : t ∈ (f.ofType .fan).map (fun e => nameOf names (.con e.key)) := ht
           obtain ⟨e, he, rfl⟩ := List.mem_map.mp this
@@ -267,8 +274,272 @@ theorem field_unreferenced {w : NcVar} (hw : w ∈ (wfFile o f names).vars) :
             unfold mainVar; cases e.con.ctype <;> rfl
           rw [this] at ht; cases ht
         · subst hm'; cases ht
+        · subst hm'; cases ht
       · cases ht
-  exact meta_ne_field hwf hg (hmeta _ hmem) rfl
+
+/-- The variables named by the `formula_terms` attributes of the file are metadata variables. -/
+theorem ftTable_values {cn : String} {ft : List (String × String)} (h : (cn, ft) ∈ ftTable f names) :
+    ∀ tn ∈ ft, IsMetaName f names tn.2 := by
+  have h' : (cn, ft) ∈ (ftOnly f).flatMap (ftAttrs f names) := h
+  obtain ⟨kr, hkr, hm⟩ := List.mem_flatMap.mp h'
+  obtain ⟨c, hoc, _, _, _, _, _, ⟨z, hz, _⟩, _⟩ := ft_owner hwf hkr
+  rw [ftAttrs_eq hwf names hkr hoc hz] at hm
+  have hdan : ∀ td ∈ termDans f kr.2, td.2 ∈ f.cons ∧ td.2.con.ctype = .dan := (termDans_spec hwf hkr).2
+  intro tn htn
+  rcases List.mem_cons.mp hm with e | hm
+  · injection e with _ e2
+    rw [e2] at htn
+    unfold ftList at htn
+    obtain ⟨td, htd, rfl⟩ := List.mem_map.mp htn
+    left; exact ⟨td.2, (hdan td htd).1, rfl⟩
+  · cases hcb : c.con.bounds with
+    | none => rw [hcb] at hm; simp at hm
+    | some cb =>
+      rw [hcb] at hm
+      simp at hm
+      rw [hm.2] at htn
+      unfold bftList at htn
+      obtain ⟨td, htd, rfl⟩ := List.mem_map.mp htn
+      obtain ⟨hm', ht'⟩ := hdan td htd
+      by_cases hcond : (td.2.con.bounds.isSome && td.2.axes.contains z) = true
+      · rw [if_pos hcond]
+        simp only [Bool.and_eq_true] at hcond
+        cases hb : td.2.con.bounds with
+        | none => rw [hb] at hcond; simp at hcond
+        | some b => right; left; exact ⟨td.2, hm', b, by simp [isBounded, ht'], hb, rfl⟩
+      · rw [if_neg hcond]
+        left; exact ⟨td.2, hm', rfl⟩
+
+/-- The bounds variable the reader finds for a term is a metadata variable. -/
+theorem danBounds_meta (cv : NcVar) (z : Option String) {ft : List (String × String)}
+    (hft : ∀ tn ∈ ft, IsMetaName f names tn.2) (tn : String × String) {bn : String}
+    (h : danBounds (boundsTerms (wfFile o f names) cv z (coordTerms (wfFile o f names) ft)) tn = some bn) :
+    IsMetaName f names bn := by
+  unfold danBounds at h
+  simp only at h
+  split at h
+  · cases h
+  · -- a value of the table of bounds terms
+    have hval : ∀ p ∈ boundsTerms (wfFile o f names) cv z (coordTerms (wfFile o f names) ft), ∀ x, p.2 = some x → IsMetaName f names x := by
+      intro p hp x hx
+      unfold boundsTerms at hp
+      cases hcb : cv.bounds with
+      | none => rw [hcb] at hp; cases hp
+      | some cb =>
+        rw [hcb] at hp
+        simp only at hp
+        split at hp
+        · cases hp
+        · cases hl : (wfFile o f names).formulaTerms.lookup cb with
+          | some bft =>
+            rw [hl] at hp
+            simp only at hp
+            obtain ⟨tn', htn', rfl⟩ := List.mem_map.mp hp
+            simp only at hx
+            have hmem : (cb, bft) ∈ ftTable f names := mem_of_lookup hl
+            have hmeta := ftTable_values hwf hg hmem tn' htn'
+            unfold boundsTermVal at hx
+            split at hx
+            · cases hx
+            · split at hx
+              · cases hx
+              · cases hx
+              · simp only at hx
+                split at hx
+                · split at hx
+                  · cases hx
+                  · injection hx with hx; rw [← hx]; exact hmeta
+                · split at hx
+                  · cases hx
+                  · split at hx
+                    · cases hx
+                    · injection hx with hx; rw [← hx]; exact hmeta
+          | none =>
+            rw [hl] at hp
+            simp only at hp
+            obtain ⟨tn', htn', rfl⟩ := List.mem_map.mp hp
+            simp only at hx
+            unfold coordTerms at htn'
+            obtain ⟨tn'', htn'', rfl⟩ := List.mem_map.mp htn'
+            simp only at hx
+            split at hx
+            · simp only [Option.bind_some] at hx
+              split at hx
+              · injection hx with hx; rw [← hx]; exact hft tn'' htn''
+              · cases hx
+            · simp at hx
+    cases hl : (boundsTerms (wfFile o f names) cv z (coordTerms (wfFile o f names) ft)).lookup tn.1 with
+    | none => rw [hl] at h; simp at h
+    | some v =>
+      rw [hl] at h
+      simp only [Option.bind_some, id] at h
+      exact hval (tn.1, v) (mem_of_lookup hl) bn h
+
+/-- What the `formula_terms` of a coordinate make the reader reference are metadata variables. -/
+theorem readFT_refs_meta (w : NcVar) (c : Entry) {x : FTRead} (h : readFT (wfFile o f names) w c = some x) :
+    ∀ d ∈ x.dans, ∀ r ∈ danRefs d, IsMetaName f names r := by
+  unfold readFT at h
+  cases hcn : c.con.ncvar with
+  | none => rw [hcn] at h; cases h
+  | some cn =>
+    rw [hcn] at h
+    simp only at h
+    cases hl : (wfFile o f names).formulaTerms.lookup cn with
+    | none => rw [hl] at h; cases h
+    | some ft =>
+      cases hcv : (wfFile o f names).var? cn with
+      | none => rw [hl, hcv] at h; cases h
+      | some cv =>
+        rw [hl, hcv] at h
+        simp only at h
+        have hft : ∀ tn ∈ ft, IsMetaName f names tn.2 := ftTable_values hwf hg (mem_of_lookup hl)
+        split at h
+        · injection h with h
+          rw [← h]
+          simp only
+          intro d hd r hr
+          obtain ⟨od, hod, hodd⟩ := List.mem_filterMap.mp hd
+          simp only [id] at hodd
+          subst hodd
+          obtain ⟨tn, htn, hrd⟩ := List.mem_map.mp hod
+          -- the term's variable
+          obtain ⟨tn0, htn0, htn0'⟩ := List.mem_filterMap.mp htn
+          unfold coordTerms at htn0
+          obtain ⟨tn1, htn1, rfl⟩ := List.mem_map.mp htn0
+          simp only at htn0'
+          have hn : tn.2 = tn1.2 := by
+            split at htn0'
+            · simp only [Option.map_some] at htn0'
+              injection htn0' with e; rw [← e]
+            · simp at htn0'
+          have hmeta_n : IsMetaName f names tn.2 := by rw [hn]; exact hft tn1 htn1
+          unfold readDan at hrd
+          cases hnv : (wfFile o f names).var? tn.2 with
+          | none => rw [hnv] at hrd; cases hrd
+          | some nv =>
+            rw [hnv] at hrd
+            simp only at hrd
+            split at hrd
+            · injection hrd with hrd
+              rw [← hrd] at hr
+              unfold danRefs danCon Entry.con at hr
+              simp only [List.mem_append, Option.mem_toList, Option.mem_def] at hr
+              rcases hr with hr | hr
+              · injection hr with hr; rw [← hr]; exact hmeta_n
+              · cases hdb : danBounds (boundsTerms (wfFile o f names) cv cv.dims.head? (coordTerms (wfFile o f names) ft)) tn with
+                | some bn =>
+                  rw [hdb] at hr
+                  simp only at hr
+                  cases hbv : (wfFile o f names).var? bn with
+                  | none => rw [hbv] at hr; simp at hr
+                  | some bv =>
+                    rw [hbv] at hr
+                    simp only [Option.bind_some] at hr
+                    cases hrb : readBoundsVar (wfFile o f names) nv bv with
+                    | none => rw [hrb] at hr; simp at hr
+                    | some b =>
+                      rw [hrb] at hr
+                      simp only at hr
+                      have hbn : b.ncvar = some bn := by
+                        unfold readBoundsVar at hrb
+                        split at hrb
+                        · split at hrb
+                          · injection hrb with hrb; rw [← hrb]; simp only; rw [(var?_some hbv).2]
+                          · cases hrb
+                        · cases hrb
+                      rw [hbn] at hr
+                      simp at hr
+                      first | rw [hr] | rw [← hr]
+                      exact danBounds_meta hwf hg cv _ hft tn hdb
+                | none =>
+                  rw [hdb] at hr
+                  simp only at hr
+                  cases hrb : readBounds (wfFile o f names) nv with
+                  | none => rw [hrb] at hr; simp at hr
+                  | some b =>
+                    rw [hrb] at hr
+                    simp only at hr
+                    obtain ⟨bn, hba, hbn⟩ := readBounds_ncvar hrb
+                    rw [hbn] at hr
+                    simp at hr
+                    first | rw [hr] | rw [← hr]
+                    exact boundsAttr_meta hwf hg (var?_some hnv).1 hba
+            · cases hrd
+        · cases h
+
+omit hwf hg in
+theorem gmStep_seen (nc : NcFile) (coords : List Entry) (danVars : List String) (st : GMSt) (g : String × List String) :
+    ∀ n ∈ (gmStep nc coords danVars st g).seen, n ∈ st.seen ∨ n = g.1 := by
+  intro n hn
+  unfold gmStep at hn
+  split at hn
+  · exact Or.inl hn
+  · split at hn
+    · exact Or.inl hn
+    · simp only at hn
+      split at hn
+      · simp only [List.mem_append, List.mem_singleton] at hn; exact hn
+      · split at hn
+        · simp only [List.mem_append, List.mem_singleton] at hn; exact hn
+        · exact Or.inl hn
+
+omit hwf hg in
+theorem foldl_gmStep_seen (nc : NcFile) (coords : List Entry) (danVars : List String) (l : List (String × List String)) (st : GMSt) :
+    ∀ n ∈ (l.foldl (gmStep nc coords danVars) st).seen, n ∈ st.seen ∨ ∃ g ∈ l, n = g.1 := by
+  induction l generalizing st with
+  | nil => intro n hn; exact Or.inl hn
+  | cons g gs ih =>
+    intro n hn
+    rw [List.foldl_cons] at hn
+    rcases ih _ n hn with h | ⟨g', hg', h⟩
+    · rcases gmStep_seen nc coords danVars st g n h with h | h
+      · exact Or.inl h
+      · exact Or.inr ⟨g, List.mem_cons_self, h⟩
+    · exact Or.inr ⟨g', List.mem_cons_of_mem _ hg', h⟩
+
+/-- What a variable of the file, taken as a data variable, references through `formula_terms` and
+`grid_mapping` attributes are metadata variables. -/
+theorem refsB_meta (w : NcVar) (cons : List Entry) :
+    ∀ r ∈ (readB (wfFile o f names) w cons).referenced, IsMetaName f names r := by
+  intro r hr
+  unfold readB at hr
+  simp only [List.mem_append, List.mem_flatMap] at hr
+  rcases hr with ⟨d, hd, hr⟩ | hr
+  · obtain ⟨x, hx, hdx⟩ := hd
+    obtain ⟨c, _, hc⟩ := List.mem_filterMap.mp hx
+    exact readFT_refs_meta hwf hg w c hc d hdx r hr
+  · rcases foldl_gmStep_seen _ _ _ _ _ r hr with h | ⟨g, hgm, rfl⟩
+    · cases h
+    · cases hl : (wfFile o f names).gridMapping.lookup w.name with
+      | none => rw [hl] at hgm; cases hgm
+      | some l =>
+        rw [hl] at hgm
+        simp only [Option.getD_some] at hgm
+        have hmem : (w.name, l) ∈ gmTable f names := mem_of_lookup hl
+        unfold gmTable at hmem
+        split at hmem
+        · cases hmem
+        · simp only [List.mem_singleton] at hmem
+          injection hmem with _ hl'
+          rw [hl'] at hgm
+          unfold gmAttr at hgm
+          split at hgm
+          · cases hgm
+          · rename_i g0 hg0
+            simp only [List.mem_singleton] at hgm
+            rw [hgm]
+            right; right; exact ⟨g0, by rw [hg0]; exact List.mem_cons_self, rfl⟩
+          · obtain ⟨g0, hg0, rfl⟩ := List.mem_map.mp hgm
+            right; right; exact ⟨g0, hg0, rfl⟩
+
+/-- Nothing references the data variable. -/
+theorem field_unreferenced {w : NcVar} (hw : w ∈ (wfFile o f names).vars) :
+    nameOf names .field ∉ varRefs (wfFile o f names) w := by
+  intro hmem
+  unfold varRefs at hmem
+  rcases List.mem_append.mp hmem with h | h
+  · exact meta_ne_field hwf hg (refsA_meta hwf hg hw _ h) rfl
+  · exact meta_ne_field hwf hg (refsB_meta hwf hg w _ _ h) rfl
 
 end
 
@@ -277,7 +548,7 @@ end Cfdm.Codec
 namespace Cfdm.Codec
 
 section
-variable {o : Opts} {f : MField} {names : List (Slot × String)} (hwf : WFField f) (hg : GoodNames f (wfAx f) names)
+variable {o : Opts} {f : MField} {names : List (Slot × String)} (hwf : WFFieldB f) (hg : GoodNames f (wfAx f) names)
 include hwf hg
 
 /-- Attaching the coordinate `e` references its variable and its bounds variable. -/
@@ -293,16 +564,31 @@ theorem coordRefs_main {e : Entry} (he : e ∈ f.cons) (hc : isCoord e = true) :
     unfold mainVar isCoord at *
     cases ht : e.con.ctype <;> simp [ht] at hc ⊢
   rw [hmv, readBounds_exact hwf hg he hc, hb]
-  simp
+  simp [rdBounds]
+
+/-- The bounds the reader gives a domain ancillary with bounds. -/
+theorem rdCon_dan_bounds {d : Entry} (hd : d ∈ f.cons) (ht : d.con.ctype = .dan) {b : MBounds} (hb : d.con.bounds = some b) :
+    (rdCon o f names d).bounds = some (rdBounds o f names d b) := by
+  have hmv : mainVar f names (wfAx f) d = plainVar names d (cdimsOf names (wfAx f) d) := by unfold mainVar; rw [ht]
+  unfold rdCon
+  rw [ht]
+  simp only
+  unfold danCon
+  simp only [hb, Option.map_some]
+  rw [var_bvar hwf hg hd (by simp [isBounded, ht]) hb]
+  simp only [Option.bind_some]
+  exact readBoundsVar_exact hwf hg hd hb _ (by rw [hmv]; rfl)
 
 /-- The data variable references every other variable of the file. -/
 theorem meta_referenced {r : String} (h : IsMetaName f names r) :
     r ∈ varRefs (wfFile o f names) (dataVar o f (wfAx f) names) := by
   -- reduce to: the references made for the construct `e`
-  have key : ∀ e ∈ f.cons, ∀ r, (r = nameOf names (.con e.key) ∨ (isCoord e = true ∧ ∃ b, e.con.bounds = some b ∧ r = nameOf names (.bvar e.key))) →
+  have key : ∀ e ∈ f.cons, e.con.ctype ≠ .dan → ∀ r, (r = nameOf names (.con e.key) ∨ (isCoord e = true ∧ ∃ b, e.con.bounds = some b ∧ r = nameOf names (.bvar e.key))) →
       r ∈ varRefs (wfFile o f names) (dataVar o f (wfAx f) names) := by
-    intro e he r hr
+    intro e he hnd r hr
     unfold varRefs
+    apply List.mem_append_left
+    unfold varRefsA
     simp only [List.mem_append, List.mem_flatMap]
     cases ht : e.con.ctype with
     | dim =>
@@ -395,9 +681,34 @@ theorem meta_referenced {r : String} (h : IsMetaName f names r) :
       · unfold ancRefs
         rw [simple_var hwf hg he (Or.inr ht)]
         simp [hr']
-  rcases h with ⟨e, he, rfl⟩ | ⟨e, he, b, hc, hb, rfl⟩
-  · exact key e he _ (Or.inl rfl)
-  · exact key e he _ (Or.inr ⟨hc, b, hb, rfl⟩)
+    | dan => exact absurd ht hnd
+  obtain ⟨hrd, hrg⟩ := read_referencedB' (o := o) hwf hg
+  -- a domain ancillary: referenced through the `formula_terms` of its parametric coordinate
+  have keyd : ∀ d ∈ f.cons, d.con.ctype = .dan → ∀ r, (r = nameOf names (.con d.key) ∨ (∃ b, d.con.bounds = some b ∧ r = nameOf names (.bvar d.key))) →
+      r ∈ varRefs (wfFile o f names) (dataVar o f (wfAx f) names) := by
+    intro d hd ht r hr
+    unfold varRefs
+    apply List.mem_append_right
+    apply hrd d hd ht
+    unfold danRefs rdB Entry.con
+    simp only [List.mem_append, Option.mem_toList, Option.mem_def]
+    rcases hr with hr | ⟨b, hb, hr⟩
+    · left
+      unfold rdCon
+      rw [ht]
+      simp only [danCon, hr]
+    · right
+      rw [rdCon_dan_bounds hwf hg hd ht hb]
+      simp only [rdBounds, Option.mem_toList, Option.mem_def, hr]
+  rcases h with ⟨e, he, rfl⟩ | ⟨e, he, b, hc, hb, rfl⟩ | ⟨g, hgm, rfl⟩
+  · by_cases ht : e.con.ctype = .dan
+    · exact keyd e he ht _ (Or.inl rfl)
+    · exact key e he ht _ (Or.inl rfl)
+  · by_cases ht : e.con.ctype = .dan
+    · exact keyd e he ht _ (Or.inr ⟨b, hb, rfl⟩)
+    · exact key e he ht _ (Or.inr ⟨wf_bounds_coord hwf hg he ht hb, b, hb, rfl⟩)
+  · unfold varRefs
+    exact List.mem_append_right _ (hrg g hgm)
 
 /-- Reading the written file yields exactly the field made from the data variable. -/
 theorem readFile_wf : readFile (wfFile o f names) = [readVar (wfFile o f names) (dataVar o f (wfAx f) names)] := by
@@ -416,20 +727,35 @@ theorem readFile_wf : readFile (wfFile o f names) = [readVar (wfFile o f names) 
     rw [← hDn]
     apply List.mem_map_of_mem
     exact List.mem_filter.mpr ⟨hDmem, by simpa using meta_referenced hwf hg hr⟩
-  have hvars : (wfFile o f names).vars.map (·.name)
-      = ((written f (wfAx f)).flatMap (entryVars f names (wfAx f))).map (·.name) ++ [nameOf names .field] := by
-    unfold wfFile; simp [hDn]
-  have hfirst : ∀ n ∈ ((written f (wfAx f)).flatMap (entryVars f names (wfAx f))).map (·.name), IsMetaName f names n := by
+  -- the variables other than the data variable
+  generalize hrest : (written f (wfAx f)).flatMap (entryVars f names (wfAx f))
+      ++ (danPlan f (wfAx f)).flatMap (danEntryVars names (wfAx f)) ++ (gmRefs f).map (gmVar names) = rest
+  have hvarsL : (wfFile o f names).vars = rest ++ [dataVar o f (wfAx f) names] := by unfold wfFile; rw [← hrest]
+  have hvars : (wfFile o f names).vars.map (·.name) = rest.map (·.name) ++ [nameOf names .field] := by
+    rw [hvarsL]; simp [hDn]
+  have hfirst : ∀ n ∈ rest.map (·.name), IsMetaName f names n := by
     intro n hn
     obtain ⟨w, hw, rfl⟩ := List.mem_map.mp hn
-    have hw' : w ∈ (wfFile o f names).vars := by unfold wfFile; exact List.mem_append_left _ hw
-    rcases var_meta hwf hg hw' with h | h
-    · -- `w` is in the first part, so it is not the data variable: its name is a metadata name
-      obtain ⟨e, he, hwe⟩ := List.mem_flatMap.mp hw
-      rcases mem_entryVars.mp hwe with h1 | ⟨hc, b, hb, h1⟩
-      · left; exact ⟨e, (mem_written hwf).mp he, by rw [h1, mainVar_name]⟩
-      · right; exact ⟨e, (mem_written hwf).mp he, b, hc, hb, by rw [h1]; rfl⟩
-    · exact h
+    have hw' : w ∈ (wfFile o f names).vars := by rw [hvarsL]; exact List.mem_append_left _ hw
+    -- `w` is in the first part: as in `mem_vars`, without the data variable
+    have hwv : w ∈ (written f (wfAx f)).flatMap (entryVars f names (wfAx f))
+        ++ (danPlan f (wfAx f)).flatMap (danEntryVars names (wfAx f)) ++ (gmRefs f).map (gmVar names) := by rw [hrest]; exact hw
+    have hwf' : w ∈ (wfFile o f names).vars → True := fun _ => trivial
+    simp only [List.mem_append, List.mem_flatMap, List.mem_map] at hwv
+    rcases hwv with (⟨e, he, hwe⟩ | ⟨pe, hpe, hwe⟩) | ⟨g, hgm, hwe⟩
+    · rcases mem_entryVars.mp hwe with h1 | ⟨hc, b, hb, h1⟩
+      · left; exact ⟨e, ((mem_written hwf).mp he).1, by rw [h1, mainVar_name]⟩
+      · right; left; exact ⟨e, ((mem_written hwf).mp he).1, b, isBounded_of_isCoord hc, hb, by rw [h1]; rfl⟩
+    · have hp2 := hg.plan pe hpe
+      have hm : pe.1 ∈ (danPlan f (wfAx f)).map (·.1) := List.mem_map_of_mem hpe
+      rw [danPlan_fst] at hm
+      obtain ⟨he, ht⟩ := mem_ofType.mp (mem_sortEntries.mp hm)
+      have hpe' : pe = (pe.1, none) := by cases pe; simp at hp2; simp [hp2]
+      rw [hpe'] at hwe
+      rcases (mem_danEntryVars (f := f) ht).mp hwe with h1 | ⟨b, hb, h1⟩
+      · left; exact ⟨pe.1, he, by rw [h1, mainVar_name]⟩
+      · right; left; exact ⟨pe.1, he, b, by simp [isBounded, ht], hb, by rw [h1]; rfl⟩
+    · right; right; exact ⟨g, hgm, by rw [← hwe]; rfl⟩
   unfold readFile
   simp only
   -- the referenced names do not contain the data variable
@@ -453,7 +779,7 @@ theorem readFile_wf : readFile (wfFile o f names) = [readVar (wfFile o f names) 
   have hkeep : ((wfFile o f names).vars.map (·.name)).filter
       (fun n => (referencersOf (wfFile o f names) n).isEmpty || ([] : List String).contains n) = [nameOf names .field] := by
     rw [hvars, List.filter_append]
-    have h1 : (((written f (wfAx f)).flatMap (entryVars f names (wfAx f))).map (·.name)).filter
+    have h1 : (rest.map (·.name)).filter
         (fun n => (referencersOf (wfFile o f names) n).isEmpty || ([] : List String).contains n) = [] := by
       rw [List.filter_eq_nil_iff]
       intro n hn
